@@ -230,6 +230,14 @@ static void build_runs() {
             }
         g_runs.push_back(r);
     }
+    {   // the longest legal name again, as five labels ending in a 1-octet label (63.63.63.59.1 = 253 characters)
+        Run r; r.name = "R3-255octets-5labels"; r.depth_quick = 4; r.depth_thorough = 6;
+        std::string n5 = std::string(63, 'p') + "." + std::string(63, 'q') + "." + std::string(63, 'r') + "." + std::string(59, 's') + ".t";
+        r.recs.push_back(rec(n5, T_NS, 0x0203, n_255()));
+        r.recs.push_back(rec(n5, T_PTR, 0x35, n5));
+        r.recs.push_back(rec(n5, T_AAAA, 0x040000, "2001:db8::5"));
+        g_runs.push_back(r);
+    }
     const char* sub[3] = {"R3-ip6arpa", "R3-255octets", "R3-label63"};
     for (int n = 0; n < 3; ++n) {
         Run r; r.name = sub[n]; r.depth_quick = 4; r.depth_thorough = 6; r.recs = byname[n];
@@ -422,7 +430,8 @@ struct Mal {
     int pos;              // 0 question name, 1 answer owner, 2 CNAME rdata, 3 NS rdata (authority), 4 MX rdata (additional), 5 SOA mname, 6 SOA rname
     NameW w;
     BytesF aux, tail;
-    int expect;           // 0: error or clean parse, both fine; 1: legal name, must be shown as `name`; 2: if shown at all it must be `name`
+    int expect;           // 0: error or clean parse, both fine; 1: legal name, must be shown as `name`; 2: if shown at all it must be `name`;
+                          // 3: does not fit any reading of "up to 255 octets" (nor libtins' 256-byte text buffers): must be reported as an error
     std::string name;
 };
 static Bytes no_bytes(const Ctx&) { return Bytes(); }
@@ -460,14 +469,22 @@ static bool tpl_name(int pos, const DNS::queries_type& q, const DNS::resources_t
     if (r[1].size() < 2) return false;
     // SOA data: two uncompressed wire names + 20 octets
     const std::string& d = r[1][1].data();
-    Bytes b(d.begin(), d.end());
-    std::string a, c;
-    size_t nx = 0;
-    if (!ref_name(b, 0, a, &nx, 0, 0)) return false;
-    if (pos == 5) { out = a; return true; }
-    if (nx >= b.size() || !ref_name(b, nx, c, &nx, 0, 0)) return false;
-    out = c;
-    return true;
+    // plain label walk without a length limit: libtins may legitimately show a name slightly above 255 octets
+    size_t p = 0;
+    for (int k = 0; k < 2; ++k) {
+        std::string nm;
+        for (;;) {
+            if (p >= d.size()) return false;
+            size_t l = (uint8_t)d[p++];
+            if (l == 0) break;
+            if (l > 63 || p + l > d.size()) return false;
+            if (!nm.empty()) nm += '.';
+            nm.append(d, p, l);
+            p += l;
+        }
+        if ((k == 0 && pos == 5) || k == 1) { out = nm; return true; }
+    }
+    return false;
 }
 
 struct WireCase { std::string fam, desc; Bytes w; int expect, pos; std::string name; bool differential; };
@@ -486,6 +503,7 @@ static std::string eval_wire(const WireCase& c, const std::string& kase, std::st
         try { d.reset(new DNS(parse_exact(c.w))); outcome = "ok"; }
         catch (exception_base& e) { outcome = "ctor:" + demangle(typeid(e).name()); }
         catch (std::exception& e) { outcome = "ctor:!"; viol("exc:" + demangle(typeid(e).name()) + ":DNS::DNS", e.what()); }
+        if (!d && c.expect == 1) viol("dns:legal-name-rejected:constructor", "a message with a legal name of " + c.fam + " was rejected: " + outcome);
         if (d) {
             DNS::queries_type q;
             DNS::resources_type r[3];
@@ -505,6 +523,10 @@ static std::string eval_wire(const WireCase& c, const std::string& kase, std::st
                 bool threw = threw_in[sec];
                 if (threw) {
                     if (c.expect == 1) viol(std::string("dns:legal-name-rejected:") + SEC[sec], "a legal name of " + c.fam + " was reported as an error: " + outcome);
+                } else if (c.expect == 3) {
+                    tpl_name(c.pos, q, r, got);
+                    viol(std::string("dns:overlong-name-accepted:") + SEC[sec], "a name of more than 257 octets (dotted form > 255 characters) was not reported as an error; shown as " +
+                         str(got.size()) + " characters '" + show(got, 24) + "'");
                 } else if (!tpl_name(c.pos, q, r, got)) {
                     viol(std::string("dns:malformed:record-missing:") + SEC[sec], "getter returned without the record holding the tested name");
                 } else if (got != c.name) {
@@ -637,6 +659,57 @@ static void for_each_mal(bool thorough, const std::function<bool(const WireCase&
             }
             emit_tpl(m);
         }
+    // ---- (f2) every dotted length 250..260 (encoded 252..262 octets) x label splits x inline / behind a pointer
+    // RFC 1035: at most 255 octets encoded = 253 characters dotted.  libtins composes the dotted form into 256-byte
+    // buffers and also accepts 254 and 255 characters (256 / 257 octets): those two lengths may be shown (exactly) or
+    // refused; 256 characters and more cannot be held and must be refused.
+    for (int pos = 0; pos <= 6 && go; ++pos)
+        for (int D = 250; D <= 260 && go; ++D)
+            for (int split = 0; split < 6 && go; ++split) {
+                // label sizes: sum + (count - 1) = D
+                std::vector<int> L;
+                int last = split < 3 ? split + 1 : 0;              // 0..2: greedy 63s, remainder, then a last label of 1..3
+                if (split <= 3) {                                  // 3: greedy 63s and the remainder as last label
+                    int pre = last ? D - last - 1 : D;
+                    while (pre > 0) {
+                        int l = pre > 63 ? 63 : pre;
+                        if (pre - l == 1) --l;                     // never leave room for a dot only
+                        L.push_back(l);
+                        pre -= l;
+                        if (pre > 0) --pre;
+                    }
+                    if (last) L.push_back(last);
+                } else if (split == 4) {                           // five labels of (almost) equal size
+                    int sum = D - 4;
+                    for (int i = 0; i < 5; ++i) L.push_back(sum / 5 + (i < sum % 5 ? 1 : 0));
+                } else {                                           // one-octet labels (a 2-octet one when D is even)
+                    int n = (D + 1) / 2;
+                    for (int i = 0; i < n; ++i) L.push_back(1);
+                    if (D % 2 == 0) L.back() = 2;
+                }
+                bool fits = true; int chk = (int)L.size() - 1;
+                for (int l : L) { chk += l; if (l < 1 || l > 63) fits = false; }
+                if (!fits || chk != D) continue;                   // e.g. 5 equal labels cannot make 260
+                std::vector<std::string> labs;
+                std::string dotted;
+                for (size_t i = 0; i < L.size(); ++i) {
+                    labs.push_back(std::string(L[i], char('a' + i % 26)));
+                    if (i) dotted += '.';
+                    dotted += labs.back();
+                }
+                for (int form = 0; form < 4 && go; ++form) {       // 0 inline; 1 first label + pointer; 2 all but the last label + pointer; 3 pointer only
+                    Mal m; m.fam = "limit"; m.pos = pos; m.tail = no_bytes; m.name = dotted;
+                    size_t inl = form == 0 ? labs.size() : form == 1 ? 1 : form == 2 ? labs.size() - 1 : 0;
+                    m.aux = [=](const Ctx&) { Enc e(0, 0, 0, 0); e.b.clear(); for (size_t i = inl; i < labs.size(); ++i) e.lab(labs[i]); e.z(); return e.b; };
+                    m.w = [=](Enc& e, const Ctx& x) { for (size_t i = 0; i < inl; ++i) e.lab(labs[i]); if (form == 0) e.z(); else e.ptr(x.aux); };
+                    int enc = D + 2;
+                    m.expect = enc <= 255 ? 1 : enc <= 257 ? 2 : 3;
+                    if (pos == 0 && form != 0 && m.expect == 1) m.expect = 2;   // the question can only point forward: not a "prior occurrence"
+                    m.desc = "dotted " + str(D) + " / encoded " + str(enc) + " octets, " + str(L.size()) + " labels (split " + str(split) + ", last label " + str(L.back()) +
+                             "), " + (form == 0 ? "inline" : form == 1 ? "1 label + pointer" : form == 2 ? "all but the last label + pointer" : "pointer only");
+                    emit_tpl(m);
+                }
+            }
     // ---- (g) reserved label types 01 / 10, inline and behind a pointer
     for (int pos = 0; pos <= 6 && go; ++pos)
         for (int v = 0; v < 4 && go; ++v) {
